@@ -572,6 +572,8 @@ class StaticResource(PrefixResource):
                     filepath = normalized_path.resolve()
                 else:
                     filepath = unresolved_path.resolve()
+                    if filepath != filepath.resolve():
+                        raise ValueError("path is not fully resolved")
                     filepath.relative_to(self._directory)
             except (ValueError, FileNotFoundError):
                 # ValueError for case when path point to symlink
@@ -664,6 +666,11 @@ class StaticResource(PrefixResource):
                 index_path = normalized_path
             else:
                 file_path = unresolved_path.resolve()
+                # resolve() gives up at a circular symlink (python < 3.13) and
+                # returns the rest of the path unresolved, symlinks included:
+                # only a path that resolves to itself can be trusted.
+                if file_path != file_path.resolve():
+                    raise ValueError("path is not fully resolved")
                 file_path.relative_to(self._directory)
                 index_path = file_path
         except (ValueError, *CIRCULAR_SYMLINK_ERROR) as error:
